@@ -141,6 +141,9 @@ class Report:
                 # this contract (the pattern has to be re-stated), it is not reported as a violation of the property
                 ob.status = UNKNOWN; ob.detail = f'syntactic pattern no longer matches the changed function; the {len(self.bounded)} native stand-in(s) of this check found no failing input. ' + str(ob.detail)[:300]
                 self.undecided.append(ob); continue
+            if ob.status == UNKNOWN and changed and ob.id in self.lock and isinstance(ob.replay, dict) and ob.replay.get('native_search_ran') and self.standins_clean():
+                # undischarged (no counter-model) on a changed function, the function's native search and every stand-in of the check found no failing input: undecided, not a violation
+                self.undecided.append(ob); continue
             if ob.status == REFUTED or (ob.status == UNKNOWN and changed and ob.id in self.lock):
                 rp = ob.replay if isinstance(ob.replay, dict) else {}
                 confirmed = bool(rp.get('confirmed'))
